@@ -180,10 +180,90 @@ def solve_obligation(ob: Obligation, rlimit, model_vars):
                 ob.model = {"_error": repr(exc)}
             break
         ob.reason = f"z3 unknown: {s.reason_unknown()}"
+    if verdict == "undecided" and ob.kind != "canary":
+        for bound in (2, 4):
+            try:
+                m = finite_model_search(ob, bound, model_vars)
+            except Exception as exc:  # pragma: no cover
+                ob.reason += f"; finite-model search failed: {exc!r}"
+                break
+            if m is not None:
+                verdict = "refuted"
+                ob.solver = f"z3 (finite-model search, sequence lengths <= {bound})"
+                ob.model = m
+                break
     ob.verdict = verdict
     ob.seconds = time.time() - t0
     if os.environ.get("VERIF_DEBUG"):
         print(f"   [solve] {ob.name} -> {verdict} {ob.seconds:.2f}s {ob.reason}", flush=True)
+
+
+def _expand_quantifiers(e, bound, cache):
+    """Replace every universal quantifier (after NNF + skolemisation) by its instances over -1..bound+1."""
+    if z3.is_quantifier(e) and not e.is_lambda():
+        if not e.is_forall():
+            raise ValueError("existential left after nnf")
+        n = e.num_vars()
+        body = e.body()
+        if n > 2:
+            raise ValueError("too many bound variables")
+        import itertools
+        insts = []
+        for vals in itertools.product(range(-1, bound + 2), repeat=n):
+            # de Bruijn: variable 0 is the innermost/last
+            subs = [z3.IntVal(v) for v in reversed(vals)]
+            insts.append(_expand_quantifiers(z3.substitute_vars(body, *subs), bound, cache))
+        return z3.And(*insts)
+    if z3.is_app(e) and e.num_args() > 0:
+        key = e.get_id()
+        if key in cache:
+            return cache[key][0]
+        kids = [_expand_quantifiers(c, bound, cache) for c in e.children()]
+        r = e.decl()(*kids) if kids else e
+        cache[key] = (r, e)
+        return r
+    if z3.is_quantifier(e) and e.is_lambda():
+        return e
+    return e
+
+
+def finite_model_search(ob, bound, model_vars):
+    """Counterexample search for an obligation the solver left open: sequence inputs bounded in length, universal
+    hypotheses instantiated over the small index range.  A model found here is only a candidate: it is always
+    replayed on the real code before it is reported."""
+    g = z3.Goal()
+    for h in ob.hyps:
+        g.add(h)
+    g.add(z3.Not(ob.goal))
+    nnf = z3.Tactic("nnf")(g)
+    s = _mk_solver(4_000_000)
+    cache = {}
+    for sub in nnf:
+        for f in sub:
+            s.add(_expand_quantifiers(f, bound, cache))
+    for name, desc in model_vars.items():
+        if desc["kind"] == "seq":
+            s.add(desc["length"] <= bound)
+    # any other integer constant named like a length (fresh sequences '....n') is bounded as well
+    seen = set()
+
+    def consts(e):
+        if e.get_id() in seen:
+            return
+        seen.add(e.get_id())
+        if z3.is_const(e) and e.decl().kind() == z3.Z3_OP_UNINTERPRETED and z3.is_int(e) and str(e).endswith(".n"):
+            s.add(e <= bound)
+        for c in e.children():
+            consts(c)
+        if z3.is_quantifier(e):
+            consts(e.body())
+
+    for h in ob.hyps:
+        consts(h)
+    consts(ob.goal)
+    if s.check() == z3.sat:
+        return extract_model(s.model(), model_vars)
+    return None
 
 
 def extract_model(model, model_vars, cap=70000):
